@@ -30,13 +30,16 @@ RULE = ("constructor maps + history of 4-22 operations on one Workflow: add (9 n
         "disconnect / disconnect_all between children, inputs_map / outputs_map assignments (rename, expose a "
         "connected channel, hide with None incl. several None, duplicate names, names shadowing another default key, "
         "unknown keys, None), value and channel assignment through wf.inputs[...], run with/without keyword "
-        "arguments (cyclic graphs included), re-adding a REMOVED node object (same or new label), relabelling a "
+        "arguments in the spellings wf.run(**kw) / wf(**kw) / wf.set_input_values(**kw) (cyclic graphs included), values "
+        "typed int/bool/float and half of the time == to the held value but of another type, a child leaving by "
+        "node.parent = None / = another workflow, re-adding a REMOVED node object (same or new label), relabelling a "
         "current child by add_child(child, label=new), replace_child by a fresh or a previously removed node of the "
         "same kind (only where the replaced child is unconnected and no connected channel is exposed), IN-PLACE edits "
         "of the map object handed out by wf.inputs_map / wf.outputs_map (item assignment incl. names already used by "
         "another key and None, del, update) on maps that are None, empty ({} by setter or constructor) or non-empty; ~85% of the operations are biased to be applicable. Non-trivial = the "
         "workflow had >=2 children and a map or a connection at some point; distinct = distinct (maps, history)")
-TRUSTED = ["channel identity is observed by an `is` search over every channel object created by the driver",
+TRUSTED = ["children are run with use_cache = False (their own caching is C05's); the workflow's cache stays on",
+           "channel identity is observed by an `is` search over every channel object created by the driver",
            "model and implementation observations are compared step by step through a 61-bit polynomial hash "
            "computed by the same recipe on both sides (WfIO.ohash / c15.ohash); model_term_full gives the tree",
            "after an exception in run() the driver resets wf.failed / wf.running (what a user has to do as well)"]
@@ -110,6 +113,28 @@ def scoped(c, l):
     return f"{c}__{l}"
 
 
+# channel values carry their Python type: a case value is an int (legacy) or ["i"|"b"|"f", n]
+KDEF = [[0], [1, 2], [3], [4], [], [5, 6], [1], [2], [1]]
+
+
+def tval(x):
+    """case value -> the python object handed to the library"""
+    if isinstance(x, list):
+        return {"i": int, "b": bool, "f": float}[x[0]](x[1])
+    return x
+
+
+def rval(x):
+    """case value -> its rendering in observations"""
+    return list(x) if isinstance(x, list) else ["i", x]
+
+
+def encz(x):
+    """case value -> WfIO.enc tag z"""
+    t, n = rval(x)
+    return 3 * n + {"i": 0, "b": 1, "f": 2}[t]
+
+
 # ---- what the property demands, from a raw structure snapshot ------------------------------------
 def expected_panel(children, kmap, d):
     """[(key, cid)] in loop order for direction d (0 = inputs, 1 = outputs).  children: the
@@ -117,13 +142,16 @@ def expected_panel(children, kmap, d):
     [[key, name|None]].  Each entry also carries how the key arose (for cause attribution)."""
     m = {} if kmap == "nomap" else {k: v for k, v in kmap}
     out = []
+    # a connection counts when it leads to a channel of a (current) child: a leftover link to a
+    # node that has left the workflow feeds nothing and must not hide the channel
+    live = {ch[1] for _, ins, outs in children for ch in ins + outs}
     for lab, ins, outs in children:
         for l, cid, conns, _ in (ins, outs)[d]:
             k = scoped(lab, l)
             if k in m:
                 if isinstance(m[k], str):
                     out.append((m[k], cid, "mapped", k))
-            elif not conns:
+            elif not [c for c in conns if c in live]:
                 out.append((k, cid, "default", k))
     return out
 
@@ -241,16 +269,35 @@ def gen_case(rng, n_ops, tricky):
     ops = []
     fresh = [1000]
 
-    def val():
-        fresh[0] += 7
-        return fresh[0]
+    last = {}                # panel key -> number last assigned through it (generator-side only)
+
+    def val(key=None, c=None, l=None):
+        """a typed value; half of the time EQUAL (==) to what the channel probably holds -- its default or
+        the number assigned last -- but of another Python type (False/0/0.0, True/1/1.0, 5/5.0)"""
+        r = rng.random()
+        held = last.get(key)
+        if held is None and c is not None:
+            kind = next((x[1] for x in sim.kids if x[0] == c), None)
+            if kind is not None and l in KIN[kind]:
+                held = KDEF[kind][KIN[kind].index(l)]
+        if held is not None and r < 0.5:
+            n = held
+        elif r < 0.65:
+            n = rng.choice([0, 1, 2, 3])
+        else:
+            fresh[0] += 7
+            n = fresh[0]
+        t = rng.choice(["i", "f", "f", "b"] if n in (0, 1) else ["i", "i", "f"])
+        if key is not None:
+            last[key] = n
+        return n if t == "i" and rng.random() < 0.5 else [t, n]
 
     for step in range(n_ops):
         wild = rng.random() < 0.15
         if len(sim.kids) < 2 and not wild and rng.random() < 0.8:
             k = "add"
         else:
-            k = rng.choice(["add"] * 4 + ["rm"] * 3 + ["con"] * 5 + ["dis", "disall"] + ["map"] * 6 + ["set"] * 3
+            k = rng.choice(["add"] * 4 + ["rm"] * 2 + ["orphan", "move"] + ["setin"] * 2 + ["con"] * 5 + ["dis", "disall"] + ["map"] * 6 + ["set"] * 3
                            + ["wcon"] + ["run"] * 4 + ["readd"] * 3 + ["relabel"] * 2 + ["replace"] * 2
                            + ["mset"] * 5 + ["mdel"] + ["mupd"] * 2)
             if k in ("mset", "mdel", "mupd") and not wild:
@@ -269,9 +316,10 @@ def gen_case(rng, n_ops, tricky):
             ops.append(["add", kind, lab])
             if lab not in sim.labels():
                 sim.kids.append([lab, kind])
-        elif k == "rm":
-            lab = rng.choice(labels) if wild or not sim.kids else rng.choice(sim.labels())
-            ops.append(["rm", lab])
+        elif k in ("rm", "orphan", "move"):
+            busy = [x[0] for x in sim.kids if any(x[0] in (t[0], t[2]) for t in sim.conns)]
+            lab = rng.choice(labels) if wild or not sim.kids else rng.choice(busy * 2 + sim.labels())
+            ops.append([k, lab])
             if lab in sim.labels():
                 sim.shelf.insert(0, [x for x in sim.kids if x[0] == lab][0])
                 sim.kids = [x for x in sim.kids if x[0] != lab]
@@ -406,8 +454,11 @@ def gen_case(rng, n_ops, tricky):
                         sim.maps[d] = [[a, b] for a, b in new.items()]
         elif k == "set":
             keys = sim.panel_keys(0)
-            key = rng.choice(["nokey", "a__x", "q"]) if wild or not keys else rng.choice(keys)[0]
-            ops.append(["set", key, val()])
+            if wild or not keys:
+                ops.append(["set", rng.choice(["nokey", "a__x", "q"]), val()])
+            else:
+                key, c, l = rng.choice(keys)
+                ops.append(["set", key, val(key, c, l)])
         elif k == "wcon":
             keys = sim.panel_keys(0)
             outs = sim.chans(1)
@@ -426,13 +477,16 @@ def gen_case(rng, n_ops, tricky):
         else:
             keys = sim.panel_keys(0)
             kw = []
-            if keys and rng.random() < 0.5:
-                for key, _, _ in rng.sample(keys, min(len(keys), rng.choice([1, 1, 2]))):
+            if keys and (k == "setin" or rng.random() < 0.6):
+                for key, c, l in rng.sample(keys, min(len(keys), rng.choice([1, 1, 2]))):
                     if key not in [x[0] for x in kw]:
-                        kw.append([key, val()])
+                        kw.append([key, val(key, c, l)])
             if wild and rng.random() < 0.5:
                 kw.append(["nokey", val()])
-            ops.append(["run", kw])
+            if k == "setin":
+                ops.append(["setin", kw])
+            else:
+                ops.append(["run", kw, rng.choice(["run", "call"])])
     return {"im": im, "om": om, "ops": ops}
 
 
@@ -475,14 +529,19 @@ def run_impl(case):
     shelf = []               # node objects removed from the workflow and kept by the "user", newest first
     kind_of = {}             # id(node object) -> kind
 
+    other = []               # a second workflow, for node.parent = other_workflow
+
     def register(node, kind):
         kind_of[id(node)] = kind
+        node.use_cache = False   # children always recompute (their own caching is C05's)
         for ch in list(node.inputs) + list(node.outputs):
             reg.append((ch, len(reg)))
 
     def from_shelf(label):
         for n in shelf:
             if n.label == label:
+                if n.parent is not None:          # it sits in the other workflow: take it out first
+                    n.parent.remove_child(n)
                 return n
         return None
 
@@ -493,7 +552,15 @@ def run_impl(case):
         return -1
 
     def v(x):
-        return "ND" if x is NOT_DATA else x if isinstance(x, int) and not isinstance(x, bool) else "?"
+        if x is NOT_DATA:
+            return "ND"
+        if isinstance(x, bool):
+            return ["b", int(x)]
+        if isinstance(x, int):
+            return ["i", x]
+        if isinstance(x, float) and x == int(x):
+            return ["f", int(x)]
+        return "?"
 
     def ks(k):
         return k if isinstance(k, str) else "<" + repr(k)[:60] + ">"
@@ -535,6 +602,21 @@ def run_impl(case):
             register(node, op[1])
         elif k == "rm":
             shelf.insert(0, wf.remove_child(op[1]))
+        elif k in ("orphan", "move"):      # the child leaves by PARENT ASSIGNMENT, not by remove_child
+            if op[1] not in wf.children:
+                return "noref"
+            node = wf.children[op[1]]
+            if k == "orphan":
+                node.parent = None
+            else:
+                if not other:
+                    other.append(Workflow("w15b", autoload=None))
+                if node.label in other[0].children:
+                    other[0].remove_child(node.label)
+                node.parent = other[0]
+            shelf.insert(0, node)
+        elif k == "setin":
+            wf.set_input_values(**{a: tval(b) for a, b in op[1]})
         elif k == "readd":           # the SAME node object comes back, possibly under another label
             node = from_shelf(op[1])
             if node is None:
@@ -597,7 +679,7 @@ def run_impl(case):
             else:
                 m.update(_dict(op[2]))
         elif k == "set":
-            wf.inputs[op[1]] = op[2]
+            wf.inputs[op[1]] = tval(op[2])
         elif k == "wcon":
             o = chan(1, op[2], op[3])
             if o is None:
@@ -605,7 +687,8 @@ def run_impl(case):
             wf.inputs[op[1]] = o
         elif k == "run":
             try:
-                r = wf.run(**{a: b for a, b in op[1]})
+                kw = {a: tval(b) for a, b in op[1]}
+                r = wf(**kw) if len(op) > 2 and op[2] == "call" else wf.run(**kw)
             except Exception:
                 wf.failed, wf.running = False, False
                 raise
@@ -651,11 +734,17 @@ def op_coq(op):
     if k == "map":
         return f"OSetMap {D[op[1]]} {map_coq(op[2])}"
     if k == "set":
-        return f"OAssign {cs(op[1])} {cz(op[2])}"
+        return f"OAssign {cs(op[1])} {cz(encz(op[2]))}"
     if k == "wcon":
         return f"OWConnect {cs(op[1])} {cs(op[2])} {cs(op[3])}"
     if k == "run":
-        return "ORun " + cl(f"({cs(a)}, {cz(b)})" for a, b in op[1])
+        return "ORun " + cl(f"({cs(a)}, {cz(encz(b))})" for a, b in op[1])
+    if k == "setin":
+        return "OSetInputs " + cl(f"({cs(a)}, {cz(encz(b))})" for a, b in op[1])
+    if k == "orphan":
+        return f"OOrphan {cs(op[1])}"
+    if k == "move":
+        return f"OMoveAway {cs(op[1])}"
     if k == "readd":
         return f"OReadd {cs(op[1])} {_ostr(op[2])}"
     if k == "relabel":
@@ -823,11 +912,24 @@ def failures(case, obs):
             if op[1] in pre_in:
                 tgt = pre_in[op[1]]
                 changed = {c for c in after if after[c] != before.get(c)}
-                if res != "ok" or after.get(tgt) != op[2] or changed - {tgt}:
+                if res != "ok" or after.get(tgt) != rval(op[2]) or changed - {tgt}:
                     out.append((step, "assign", f"wf.inputs[{op[1]!r}] = {op[2]} gave {res}; child channel {tgt} "
                                                 f"holds {after.get(tgt)}, changed channels {sorted(changed)}"))
             elif res == "ok" or after != before:
                 out.append((step, "assign", f"assignment to the absent key {op[1]!r} gave {res}"))
+        if op[0] == "setin" and pre_in is not None:
+            before, after = _vals(prev), _vals(snap)
+            unknown = [k for k, _ in op[1] if k not in pre_in]
+            if unknown:
+                if res == "ok" or after != before:
+                    out.append((step, "assign", f"set_input_values accepted the unknown keys {unknown} ({res})"))
+            else:
+                tg = {pre_in[k]: rval(z) for k, z in op[1]}
+                wrong = {c: after.get(c) for c, z in tg.items() if after.get(c) != z}
+                changed = {c for c in after if after[c] != before.get(c)} - set(tg)
+                if res != "ok" or wrong or changed:
+                    out.append((step, "assign", f"set_input_values({op[1]}) gave {res}; child channels hold {wrong} "
+                                                f"instead of the assigned values/types; other changes {sorted(changed)}"))
         if op[0] == "wcon" and pre_in is not None and res != "noref":
             if op[1] in pre_in:
                 tgt = pre_in[op[1]]
@@ -859,7 +961,7 @@ def failures(case, obs):
                 for k, z in op[1]:
                     c = pre_in[k]
                     con = [cn_ for _, ins, _ in snap[0] for _, c2, cn_, _ in ins if c2 == c]
-                    if con and not con[0] and vals.get(c) != z:
+                    if con and not con[0] and vals.get(c) != rval(z):
                         out.append((step, "run", f"keyword {k}={z} did not reach the child channel {c} ({vals.get(c)})"))
         prev = snap
     return out
